@@ -275,7 +275,8 @@ class Check:
         self.known = {}
         self.findings = load_findings().get(pid, {})
         self._nontrivial = set()
-        for f in glob.glob(os.path.join(VERIF, "replays", pid + "-*.json")):
+        self.replay_dir = os.environ.get("VERIF_REPLAY_DIR", os.path.join(VERIF, "replays"))
+        for f in glob.glob(os.path.join(self.replay_dir, pid + "-*.json")):
             os.unlink(f)
 
     @property
@@ -323,16 +324,16 @@ class Check:
         if self.known:
             ev["coverage"]["known_findings_hit"] = {k: v[0] for k, v in self.known.items()}
         os.makedirs(os.path.join(VERIF, "evidence"), exist_ok=True)
-        with open(os.path.join(VERIF, "evidence", self.pid + ".json"), "w") as f:
+        with open(os.path.join(VERIF, "evidence", self.pid + os.environ.get("VERIF_EVIDENCE_SUFFIX", "") + ".json"), "w") as f:
             json.dump(ev, f, indent=1, default=str)
         for k, (n, text) in self.known.items():
             print("KNOWN-FINDING: property=%s %s (key=%s, %d case(s) this run)" % (self.pid, self.findings[k], k, n))
         if self.violations:
-            os.makedirs(os.path.join(VERIF, "replays"), exist_ok=True)
+            os.makedirs(self.replay_dir, exist_ok=True)
             seen = set()
             for sig, text, replay in self.violations[:20]:
                 h = hashlib.sha1(json.dumps(replay, sort_keys=True, default=str).encode()).hexdigest()[:10]
-                path = os.path.join(VERIF, "replays", "%s-%s.json" % (self.pid, h))
+                path = os.path.join(self.replay_dir, "%s-%s.json" % (self.pid, h))
                 if path in seen:
                     continue
                 seen.add(path)
